@@ -104,6 +104,36 @@ func runC17(c *an.Check) {
 			c.Decide(rearm || (e.FailOnRecover && hasFail), "C17.R3", t.key(s)+" survives-restart", t.pos(c, s), "bounded after restart (FailOnrecover or re-armed)",
 				"after a restart the in-memory timer is gone; this state is neither FailOnrecover (with an ActionFailed edge) nor does its action re-arm the timeout: a requester restarted while waiting never cancels and never tells the peer")
 		}
+		// R3 (recovery entry): Recover re-executes the action of any state that
+		// is not FailOnrecover and then follows the events the actions return. If
+		// that automatic chain enters a negotiation waiting state without running
+		// an arming action, the wait is unbounded in the restarted process.
+		for _, x := range t.T.Order {
+			xe := t.T.States[x]
+			if xe.Terminal() || xe.FailOnRecover || len(xe.Actions) == 0 || neg[x] || t.Sum[x].HasEffect(fxAddTimeout) {
+				continue
+			}
+			seen := map[string]bool{x: true}
+			st := []string{x}
+			for len(st) > 0 {
+				y := st[len(st)-1]
+				st = st[:len(st)-1]
+				for ev := range t.Sum[y].Events {
+					nx, ok := t.T.States[y].Events[ev]
+					if !ok || seen[nx] || t.Sum[nx].HasEffect(fxAddTimeout) {
+						continue
+					}
+					seen[nx] = true
+					if neg[nx] {
+						c.Bad("C17.R3", t.key(x)+" recovery-enters "+nx, t.pos(c, x),
+							"a node restarted in this state re-executes its action ("+strings.Join(xe.ActionNames(), ",")+") and moves on to the negotiation waiting state "+nx+" without arming a timeout: the wait is no longer bounded by the 10 minute negotiation timeout")
+						continue
+					}
+					st = append(st, nx)
+				}
+			}
+			c.OK("C17.R3", t.key(x)+" recovery-entry", t.pos(c, x), "recovering here does not enter a negotiation wait without a timer")
+		}
 		// R4
 		post := map[string]string{}
 		for _, p := range t.statesWith(fxPay) {
